@@ -78,14 +78,19 @@ theorem readLine_flags (s : Sock) : (s.readLine).2.closed = s.closed ∧ ((s.rea
 /-! ## the header block -/
 
 /-- what one line of the header block does to (dictionary, current field name, current field value): a line that
-    starts with white space continues the current field (its trimmed text is appended to the *first* line's value);
-    otherwise the trimmed line is `name ":" value` and stores the trimmed value under the name; `none`: neither -/
+    starts with white space continues the current field (its trimmed text, when not empty, is joined to the value
+    accumulated so far with one space); otherwise the trimmed line is `name ":" value` and stores the trimmed value
+    (possibly empty) under the canonical name; `none`: neither -/
 def foldHeaderLine (st : Dic × Bytes × Bytes) (line : Bytes) : Option (Dic × Bytes × Bytes) :=
-  if cIsSpace (line.getD 0 0) then some (setHeader st.1 st.2.1 (st.2.2 ++ trimmed line), st.2.1, st.2.2)
+  if cIsSpace (line.getD 0 0) then
+    (if (trimmed line).length == 0 then some st
+     else
+       let v := if st.2.2.length == 0 then trimmed line else st.2.2 ++ 32 :: trimmed line
+       some (storeHeader st.1 st.2.1 v, st.2.1, v))
   else
     match findByte 58 (cstr (trimmed line)) with
     | none => none
-    | some i => some (setHeader st.1 ((trimmed line).take i) (trimmed ((trimmed line).drop (i + 1))),
+    | some i => some (storeHeader st.1 ((trimmed line).take i) (trimmed ((trimmed line).drop (i + 1))),
                       (trimmed line).take i, trimmed ((trimmed line).drop (i + 1)))
 
 /-- a complete header block at the head of a stream, and the dictionary it denotes: LF-terminated lines, each
@@ -116,10 +121,13 @@ theorem headersStep_cases (x : HSt) :
     by_cases hsp : cIsSpace (x.s.readLine.1.getD 0 0) = true
     · right
       simp only [hsp, if_true]
-      refine ⟨_, rfl, rfl, hne, ?_, rfl⟩
-      intro hnil
-      rw [hnil] at hsp
-      exact absurd hsp (by decide)
+      have hnn : x.s.readLine.1 ≠ [] := by
+        intro hnil
+        rw [hnil] at hsp
+        exact absurd hsp (by decide)
+      split
+      · exact ⟨_, rfl, rfl, hne, hnn, rfl⟩
+      · exact ⟨_, rfl, rfl, hne, hnn, rfl⟩
     · simp only [hsp, Bool.false_eq_true, if_false]
       cases hf : findByte 58 (cstr (trimmed x.s.readLine.1)) with
       | none => left; exact ⟨_, rfl⟩
@@ -644,7 +652,7 @@ theorem validLength_spec (v : Bytes) (h : validLength v = true) :
     `Transfer-Encoding: chunked` (whatever Content-Length says); else, with Content-Length, exactly the decimal
     number of bytes written there; else nothing -/
 def BodyFramed (h : Dic) (wire body rest : Bytes) : Prop :=
-  if (cstr (header h sTransferEncoding) == sChunked) = true then ChunkedWire wire body rest
+  if isChunked (header h sTransferEncoding) = true then ChunkedWire wire body rest
   else if hasHeader h sContentLength = true then
     ∃ n, decimalValue (header h sContentLength) = some n ∧ n < 2 ^ 31 ∧ body.length = n ∧ wire = body ++ rest
   else body = [] ∧ wire = rest
@@ -672,7 +680,7 @@ theorem readBody_inv (s : Sock) (h : Dic) (r : Sock × Bytes) (hr : readBody s h
         exact absurd hh hs
     have key : BodyFramed h s.inp r.2 r.1.inp ∧ Healthy s := by
       unfold BodyFramed
-      by_cases hc : (cstr (header h sTransferEncoding) == sChunked) = true
+      by_cases hc : isChunked (header h sTransferEncoding) = true
       · simp only [hc, if_true] at hr ⊢
         obtain ⟨d, e1, e2⟩ := iterate_body_chunked_inv _ _ r hr hh rfl
         simp only [List.nil_append] at e1 e2
@@ -682,11 +690,11 @@ theorem readBody_inv (s : Sock) (h : Dic) (r : Sock × Bytes) (hr : readBody s h
         by_cases hcl : hasHeader h sContentLength = true
         · simp only [hcl, if_true] at hr ⊢
           obtain ⟨n, hn1, hn2, hn3⟩ := validLength_spec _ (hvalid hcl)
-          by_cases hz : (cstr (header h sContentLength) == [48]) = true
+          by_cases hz : (myatoi 32 (cstr (header h sContentLength)) == 0) = true
           · simp only [hz, if_true, pure, Except.pure, Except.ok.injEq] at hr
             subst hr
-            have hz' : cstr (header h sContentLength) = [48] := by simpa using hz
-            rw [hz', myatoi_zero] at hn3
+            have hz' : myatoi 32 (cstr (header h sContentLength)) = 0 := by simpa using hz
+            rw [hz'] at hn3
             have : n = 0 := by omega
             subst this
             exact ⟨⟨0, hn1, hn2, rfl, rfl⟩, hh⟩
